@@ -131,6 +131,7 @@ pub const D_WAIT: u32 = 32; // hold a waiter before park until a notify is issue
 pub const D_CACHE: u32 = 64; // hold a cache filler between fetch and insert until a commit is published
 pub const D_AFTER_NOTIFY: u32 = 256; // hold a notifier after notify() until the waiter parks again
 pub const D_FINISH_AT_HEAD: u32 = 128;
+pub const D_GATE: u32 = 1024; // hold the first execution of some transaction k >= 2 until a lower transaction has been re-executed (frontier stays low: later transactions execute early and are validated late)
 pub const D_ESTIMATE_REWIND: u32 = 512; // hold a failing validator / a rewinder between its steps until another validation ends // hold a finished attempt until the commit boundary reaches its tx
 
 impl Profile {
@@ -194,6 +195,7 @@ pub struct Obs {
     validations_done: AtomicU64,
     commit_published: AtomicUsize,
     notifies: AtomicU64,
+    reexec_ends: AtomicU64,
     park_enters: AtomicU64,
     pub holds: AtomicU64,
     pub hold_hits: AtomicU64,
@@ -248,6 +250,7 @@ pub fn obs() -> &'static Obs {
         validations_done: AtomicU64::new(0),
         commit_published: AtomicUsize::new(0),
         notifies: AtomicU64::new(0),
+        reexec_ends: AtomicU64::new(0),
         park_enters: AtomicU64::new(0),
         holds: AtomicU64::new(0),
         hold_hits: AtomicU64::new(0),
@@ -330,6 +333,7 @@ impl Obs {
         self.validations_done.store(0, Relaxed);
         self.commit_published.store(0, Relaxed);
         self.notifies.store(0, Relaxed);
+        self.reexec_ends.store(0, Relaxed);
         self.park_enters.store(0, Relaxed);
         self.holds.store(0, Relaxed);
         self.hold_hits.store(0, Relaxed);
@@ -446,6 +450,13 @@ impl Obs {
             Point::ExecAfterRun if bits & D_FINISH_AT_HEAD != 0 && a > 0 => {
                 if tl_rand() % 2 == 0 {
                     self.hold(4000, || self.commit_published.load(Relaxed) >= a);
+                }
+            }
+            Point::ExecBeforeRun if bits & D_GATE != 0 && a >= 2 && _b == 1 => {
+                // one "gate" transaction in three (fixed per run and index)
+                if (self.run_seed.load(Relaxed) ^ (a as u64).wrapping_mul(0x9E37_79B9_7F4A_7C15)) % 3 == 0 {
+                    let before = self.reexec_ends.load(Relaxed);
+                    self.hold(4000, || self.reexec_ends.load(Relaxed) != before);
                 }
             }
             Point::ExecBeforeRun if bits & D_COMMIT_HEAD != 0 && a > 0 => {
@@ -606,8 +617,11 @@ impl Hooks for Obs {
             Event::Finality { .. } => {
                 self.progress_marks.fetch_add(1, Relaxed);
             }
-            Event::ExecEnd { .. } => {
+            Event::ExecEnd { incarnation, .. } => {
                 self.in_exec.fetch_sub(1, Relaxed);
+                if incarnation > 1 {
+                    self.reexec_ends.fetch_add(1, Relaxed);
+                }
             }
             _ => {}
         }
